@@ -44,7 +44,11 @@ def run(spec, data, cand, b, seed):
 
 
 def close(a, b):
-    return a.shape == b.shape and np.array_equal(np.isnan(a), np.isnan(b)) and np.allclose(a, b, rtol=1e-9, atol=1e-8, equal_nan=True)
+    # scikit-learn computes Euclidean distances as sqrt(|x|^2 + |y|^2 - 2 x.y): for (nearly) identical points the
+    # cancellation error is of the order sqrt(machine epsilon) * scale ~ 1e-7, and which operand order / block is used
+    # depends on the number of rows handed over.  The tolerance is that noise level (a wrong candidate set moves
+    # utilities by orders of magnitude more).
+    return a.shape == b.shape and np.array_equal(np.isnan(a), np.isnan(b)) and np.allclose(a, b, rtol=1e-7, atol=1e-6, equal_nan=True)
 
 
 def unique_best(row):
